@@ -1,5 +1,5 @@
 import DcmVerif.Proofs.Code_dicts
-/-! The tie by proof (dcmmeta.py: make_empty (base dictionaries), get_classification, get_values_and_class): functions translated from the Python source on every run
+/-! The tie by proof (dcmmeta.py: make_empty (base dictionaries), get_classification, get_values_and_class, get_values): functions translated from the Python source on every run
 (`tools/gen_code.py` → `Generated/Code_dicts.lean`) are the model functions the property theorems speak about.
 Statements only; proofs are by reference to `Proofs/Code_dicts.lean`. One file per function group, so that an edit
 of one function only unsettles the properties that depend on it. -/
@@ -25,7 +25,14 @@ theorem get_values_and_class_is_lookup (shape : List Nat) (valid : List Cls) (hv
     Py.get_values_and_class shape d = .ok (KeyDict.valuesAndClass valid d) :=
   Src.get_values_and_class_eq shape valid hv d
 
-/-- the translator translated every function of this group (dcmmeta.py: make_empty (base dictionaries), get_classification, get_values_and_class) -/
+/-- **`get_values` as written in dcmmeta.py is the value half of that lookup**: the values under the first valid class, in the
+    order of `get_valid_classes`, whose dictionary holds the key; None for a key no valid class holds -/
+theorem get_values_is_lookup (shape : List Nat) (valid : List Cls) (hv : Py.get_valid_classes shape = .ok valid)
+    (d : KeyDict α) :
+    Py.get_values shape d = .ok ((KeyDict.valuesAndClass valid d).map (·.2)) :=
+  Src.get_values_eq shape valid hv d
+
+/-- the translator translated every function of this group (dcmmeta.py: make_empty (base dictionaries), get_classification, get_values_and_class, get_values) -/
 theorem translator_complete_dicts : Gen.codeMissing_dicts = [] := rfl
 
 end Source
